@@ -20,7 +20,7 @@ KINDS = ["tree", "reconv", "reconv", "multi", "multi", "dag", "dag", "wide"]
 
 
 def generate(rng, tier):
-    n = 150 if tier == "quick" else 2200
+    n = 150 if tier == "quick" else 1200
     out = []
     for i in range(n):
         kind = KINDS[i % len(KINDS)]
